@@ -368,6 +368,56 @@ def absPathsGo {P : Type} (join : P → P) : List (PathEntry P) → List P → L
 def getAbsPaths {P : Type} (join : P → P) (entries : List (PathEntry P)) : List P :=
   absPathsGo join entries []
 
+/-! ### the file lists of a data set are its own objects (aliasing as state)
+
+List objects live in a heap (object id = index).  The caller owns a list object and hands it to the
+`exp_pathfilename_list` / `mc_pathfilename_list` / `grl_pathfilename_list` setter (also called by the
+constructor); the setter stores `list(pathfilenames)`, a *new* object holding a copy.  Afterwards the
+caller may go on changing its own object. -/
+
+inductive ListOp (P : Type)
+  | append (p : P)
+  | pop
+  | reverse
+  | clear
+  deriving DecidableEq, Repr
+
+def ListOp.apply {P : Type} : ListOp P → List P → List P
+  | .append p, l => l ++ [p]
+  | .pop, l => l.dropLast
+  | .reverse, l => l.reverse
+  | .clear, _ => []
+
+/-- write access to one list object -/
+def heapModify {P : Type} (heap : List (List P)) (id : Nat) (f : List P → List P) : List (List P) :=
+  match heap[id]? with
+  | none => heap
+  | some l => heap.set id (f l)
+
+/-- the setter as coded: `self._exp_pathfilename_list = list(pathfilenames)` — allocate a new object
+with the current value of the caller's object; returns the new heap and the id the data set keeps -/
+def defineCopy {P : Type} (heap : List (List P)) (src : Nat) : Option (List (List P) × Nat) :=
+  match heap[src]? with
+  | none => none
+  | some l => some (heap ++ [l], heap.length)
+
+/-- a setter that keeps the caller's object (`self._exp_pathfilename_list = pathfilenames`) -/
+def defineAlias {P : Type} (heap : List (List P)) (src : Nat) : Option (List (List P) × Nat) :=
+  match heap[src]? with
+  | none => none
+  | some _ => some (heap, src)
+
+/-- the caller changes its own list object `src` -/
+def callerOps {P : Type} (heap : List (List P)) (src : Nat) (ops : List (ListOp P)) : List (List P) :=
+  ops.foldl (fun h op => heapModify h src op.apply) heap
+
+/-- the file list the data set sees after: definition from the caller's object, then caller changes -/
+def fileListAfter {P : Type} (define : List (List P) → Nat → Option (List (List P) × Nat))
+    (initial : List P) (ops : List (ListOp P)) : Option (List P) :=
+  match define [initial] 0 with
+  | none => none
+  | some (heap, ref) => (callerOps heap 0 ops)[ref]?
+
 /-! ### data field stages, renaming, Dataset.load_data / load_and_prepare_data -/
 
 structure Stages where
